@@ -263,12 +263,15 @@ class LaserMachine(Machine):
                 out["pointing@%d" % i] = [v.x, v.y, v.z]
             out["geometry"] = geometry_descr(obj.generate_geometry())
         else:
-            out["psd"] = np.array(obj.power_spectral_density, dtype=float)
-            out["wavelengths"] = np.array(obj.wavelengths, dtype=float)
-            out["delta_wavelength"] = float(obj.delta_wavelength)
+            # the accessors the library itself uses (cpdef / Function1D call) come first: a read through a Python property
+            # must not be what brings the binned spectrum up to date
             out["get_delta_wavelength"] = float(obj.get_delta_wavelength())
             for i, x in enumerate(c.cfg["xs"]):
                 out["spectrum(%d)" % i] = float(obj(x))
+            out["psd"] = np.array(obj.power_spectral_density, dtype=float)
+            out["wavelengths"] = np.array(obj.wavelengths, dtype=float)
+            out["delta_wavelength"] = float(obj.delta_wavelength)
+            out["get_delta_wavelength.again"] = float(obj.get_delta_wavelength())
         for a, v in self._getters(c, obj, kind).items():
             out["param." + a] = v
         return out
